@@ -76,6 +76,30 @@ template <class T> struct StdVec
    T* data() { return p; }
    const T* data() const { return p; }
    size_t size() const { return (size_t)n; }
+#ifdef WANT_VB_REDIM
+   /* growth part of the std::vector stand-in (unit ssvector, instance reDim): the block behind p has room for VEC_BLOCK
+    * elements (asserted); capacity() is the symbolic member cap >= n; growing beyond it picks ANY new capacity >= the new
+    * size; new elements are value-initialised (0), as std::vector<R>::insert(end, count, 0) / resize do for a number type */
+   int cap;
+   size_t capacity() const { return (size_t)cap; }
+   T* end() { return p + n; }
+   void verif_grow(int m)
+   {
+      __CPROVER_assert(0 <= m && m <= VEC_BLOCK, "std::vector stand-in: new size within the fixed block");
+      if(m > cap) { int c = nondet_int(); __CPROVER_assume(m <= c && c <= VEC_BLOCK); cap = c; }
+      for(int sv_k = n; sv_k < m; ++sv_k) p[sv_k] = 0;
+      n = m;
+   }
+   void insert(T* pos, int count, int v)
+   {
+      __CPROVER_assert(pos == p + n && v == 0, "std::vector stand-in: only insert(end(), count, 0) is modelled");
+      verif_grow(n + count);
+   }
+   void resize(int m)
+   {
+      if(m > n) verif_grow(m); else { __CPROVER_assert(0 <= m, "std::vector::resize: size >= 0"); n = m; }
+   }
+#endif
 };
 
 template <class T> struct SVectorBase;
@@ -153,6 +177,16 @@ template <class T> struct VectorBase VECTORBASE_BASE
    {
 #include "VB_get_ptr.inc"
    }
+#ifdef WANT_VB_REDIM
+   int memSize() const
+   {
+#include "VB_memSize.inc"
+   }
+   void reDim(int newdim, const bool setZero = true)
+   {
+#include "VB_reDim.inc"
+   }
+#endif
    /* STUB (real body: `for(auto& v : val) v = 0;`, range-based for is not parsed by goto-cc) */
    void clear()
    {
